@@ -23,3 +23,59 @@ Definition lib_html_EscapeString (s : bytes) : bytes := flat_map lib_html_esc_by
    occurrence, left to right (one-byte matches cannot overlap) *)
 Definition lib_strings_Replace1 (old : N) (new s : bytes) : bytes :=
   flat_map (fun b => if N.eqb b old then new else [b]) s.
+
+(* ================================================================ strings.Repeat, strings.Join,
+   make([]string, 0, c)   (notes/SOURCE_TIE_3.md) *)
+
+(* strings.Repeat(s, n): n copies of s; it panics on a negative count.  (It also
+   panics when len(s)*n overflows an int: out of scope, int = Z.) *)
+Fixpoint lib_repeat_nat (s : bytes) (n : nat) : bytes :=
+  match n with O => [] | S k => s ++ lib_repeat_nat s k end.
+Definition lib_strings_Repeat (s : bytes) (n : Z) : M bytes :=
+  if (n <? 0)%Z then panic else ret (lib_repeat_nat s (Z.to_nat n)).
+
+(* strings.Join(xs, sep): the elements of xs with sep between consecutive ones *)
+Fixpoint lib_strings_Join (xs : list bytes) (sep : bytes) : bytes :=
+  match xs with
+  | [] => []
+  | x :: r => match r with [] => x | _ :: _ => x ++ sep ++ lib_strings_Join r sep end
+  end.
+
+(* make([]string, 0, c): the empty slice; a negative capacity panics.  The
+   capacity itself is dropped (see the header of a generated file that uses it). *)
+Definition make_strings_cap (c : Z) : M (list bytes) := if (c <? 0)%Z then panic else ret [].
+
+(* ---- characterisations *)
+Lemma lib_repeat_nat_length s n : length (lib_repeat_nat s n) = (n * length s)%nat.
+Proof. induction n as [|n IH]; cbn [lib_repeat_nat]; [reflexivity|]. rewrite app_length, IH. reflexivity. Qed.
+
+Lemma lib_repeat_nat_rep s n : lib_repeat_nat s n = rep n s.
+Proof. induction n as [|n IH]; cbn [lib_repeat_nat rep]; [reflexivity|]. rewrite IH. reflexivity. Qed.
+
+Lemma lib_repeat_nat_concat s n : lib_repeat_nat s n = concat (repeat s n).
+Proof. induction n as [|n IH]; cbn [lib_repeat_nat repeat concat]; [reflexivity|]. rewrite IH. reflexivity. Qed.
+
+Lemma lib_strings_Repeat_neg s n : (n < 0)%Z -> lib_strings_Repeat s n = panic.
+Proof. intros H. unfold lib_strings_Repeat. apply Z.ltb_lt in H. rewrite H. reflexivity. Qed.
+
+Lemma lib_strings_Repeat_nonneg s n : (0 <= n)%Z -> lib_strings_Repeat s n = ret (rep (Z.to_nat n) s).
+Proof.
+  intros H. unfold lib_strings_Repeat. destruct (n <? 0)%Z eqn:E; [apply Z.ltb_lt in E; lia|].
+  rewrite lib_repeat_nat_rep. reflexivity.
+Qed.
+
+Lemma lib_strings_Join_join xs sep : lib_strings_Join xs sep = join sep xs.
+Proof.
+  induction xs as [|x r IH]; [reflexivity|]. cbn [lib_strings_Join join]. destruct r; [reflexivity|].
+  rewrite IH. reflexivity.
+Qed.
+
+Lemma lib_strings_Join_nil xs : lib_strings_Join xs [] = concat xs.
+Proof.
+  induction xs as [|x r IH]; [reflexivity|]. cbn [lib_strings_Join concat]. destruct r as [|y r].
+  - cbn. rewrite app_nil_r. reflexivity.
+  - rewrite IH. reflexivity.
+Qed.
+
+Lemma make_strings_cap_nonneg c : (0 <= c)%Z -> make_strings_cap c = ret [].
+Proof. intros H. unfold make_strings_cap. destruct (c <? 0)%Z eqn:E; [apply Z.ltb_lt in E; lia|reflexivity]. Qed.
